@@ -292,10 +292,12 @@ func TestScenarios(t *testing.T) {
 		sc.settle()
 		w.StartExecute("c2", find(w, "d1"), "", []string{"b", "t3"}, 0)
 		sc.settle()
+		sc.idle(w1)           // w1 restarted and lost the task: re-issued once (within its budget)
 		sc.complete(w1, 4, 0) // DEADLINE_EXCEEDED on the small class: falls back to QUEUED on class 2
 		w.StartExecute("c3", find(w, "d1"), "", []string{"a", "t2"}, 0)
 		sc.settle()
 		sc.idle(w2)
+		sc.idle(w2)           // w2 restarted as well: its own budget starts at zero, so the task is re-issued
 		sc.complete(w2, 0, 1) // fails on the largest: final
 	})
 }
